@@ -135,18 +135,26 @@ def removeNode (offsets : List Nat) (raw : List Char) (action : Action) (sp : Sp
     else pure (splice raw start start str)
   | .other => pure (splice raw start start str)
 
-/-- stable insertion into a list sorted by `(lineno, colno)` descending (`sorted(..., reverse=True)`
-keeps the original order of equal keys) -/
-def keyLt (a b : Work) : Bool :=
-  a.span.line < b.span.line || (a.span.line == b.span.line && a.span.col < b.span.col)
+/-- the sort key of `apply_changes` as a strict "comes earlier" test; which components take part is
+regenerated from the real method (`PrecTable.sortKeyUsesLine/Column`, probed with two queued nodes) -/
+def keyLtWith (useLine useCol : Bool) (a b : Work) : Bool :=
+  (useLine && decide (a.span.line < b.span.line)) ||
+  ((!useLine || a.span.line == b.span.line) && useCol && decide (a.span.col < b.span.col))
 
-def insertDesc (w : Work) : List Work → List Work
+def keyLt (a b : Work) : Bool := keyLtWith PrecTable.sortKeyUsesLine PrecTable.sortKeyUsesColumn a b
+
+/-- stable insertion into a list sorted descending (`sorted(..., reverse=True)` keeps the original
+order of equal keys) -/
+def insertDescBy (lt : Work → Work → Bool) (w : Work) : List Work → List Work
   | [] => [w]
-  | x :: xs => if keyLt w x then x :: insertDesc w xs else w :: x :: xs
+  | x :: xs => if lt w x then x :: insertDescBy lt w xs else w :: x :: xs
 
-def sortDesc : List Work → List Work
+def sortDescBy (lt : Work → Work → Bool) : List Work → List Work
   | [] => []
-  | w :: ws => insertDesc w (sortDesc ws)
+  | w :: ws => insertDescBy lt w (sortDescBy lt ws)
+
+def insertDesc (w : Work) (l : List Work) : List Work := insertDescBy keyLt w l
+def sortDesc (ws : List Work) : List Work := sortDescBy keyLt ws
 
 /-- `new_data` of a work item -/
 def Work.str (w : Work) : List Char :=
